@@ -202,3 +202,45 @@ func VerifH_C14_generics() {
 	}
 	vp.Assert("C01,C14.generics.typechecks", ok)
 }
+
+// Zero-argument conversions T(): the zero value of T, for every universe type and for named types
+// whose package declares a T_Cast function (none of whose candidates takes zero arguments).
+const verifCastExtra = `
+type NCast struct{ X int }
+
+func NCast_Cast(x int) NCast { return NCast{x} }
+
+type NCast2 int
+
+func NCast2_Cast(x string) NCast2 { return 0 }
+
+var (
+	t_ncast  NCast
+	t_ncast2 NCast2
+)
+`
+
+func VerifH_C14_zeroconv() {
+	upkg, all := verifUniverse(verifCastExtra)
+	conf := &Config{Types: upkg, Importer: verifImporter{}, HandleErr: func(err error) { panic(err) }}
+	pkg := NewPackage("", "u", conf)
+	T := verifPickAnyType("T", all)
+	cb := pkg.NewFunc(nil, "zz_f", nil, nil, false).BodyStart(pkg)
+	var e *Element
+	class := vp.Try(func() {
+		cb.Typ(T.typ).Call(0)
+		e = cb.Get(-1)
+	})
+	vp.Assert("C17.c14.zeroconv.nofault", class != vp.FaultPanic)
+	_, isIface := T.typ.Underlying().(*types.Interface)
+	vp.Fact("iface", verifB2I(isIface))
+	vp.Assert("C14.zeroconv.accepted", class == vp.NoPanic)
+	if class != vp.NoPanic {
+		return
+	}
+	text := verifExprText(e)
+	vp.Observe("text", text)
+	vp.Assert("C14.zeroconv.reported", types.Identical(e.Type, T.typ))
+	ok, _ := verifGoAccepts(verifCastExtra + fmt.Sprintf("\nvar _ = func() { %s = %s }\n", T.name, text))
+	vp.Assert("C14.zeroconv.assignable", ok)
+}
